@@ -201,12 +201,12 @@ func TestVerifInformer(t *testing.T) {
 		openCount := []int{0, 0}
 		nextHandler := 0
 		var ops []vs.M
-		nops := 5 + r.Intn(10)
+		nops := 6 + r.Intn(12)
 		for k := 0; k < nops; k++ {
 			op := vs.M{}
 			listBefore := []int{countLog(sim, "list", "widgets"), countLog(sim, "list", "configmaps")}
 			closedBefore := []int{countLog(sim, "watch-closed", "widgets"), countLog(sim, "watch-closed", "configmaps")}
-			choice := r.Intn(10)
+			choice := r.Intn(12)
 			var openSubs []int
 			for si, s := range subs {
 				if s.open {
@@ -231,7 +231,7 @@ func TestVerifInformer(t *testing.T) {
 				openCount[res]++
 				subs = append(subs, &subState{res: res, ri: ri, instance: instance[res], open: true})
 				op = vs.M{"op": "subscribe", "res": res, "sub": len(subs) - 1}
-			case choice < 4 && len(openSubs) > 0:
+			case choice < 3 && len(openSubs) > 0:
 				si := openSubs[r.Intn(len(openSubs))]
 				s := subs[si]
 				s.ri.Close()
